@@ -282,6 +282,7 @@ Q, T, QT = ['quick'], ['thorough'], ['quick', 'thorough']
 SFX = {0: 't', 1: 'n', 'tn': 'tn', 'mt': 'mt', 'mn': 'mn'}
 for L in (1, 2, 3):
     for nt in (0, 1, 'tn', 'mt', 'mn'):
+        if L == 3 and nt not in (0, 1): continue        # (chains of 3 only for the two original modes: the writers' text is the same, the traits differ per item only)
         sfx = SFX[nt] + str(L)
         RUNS.append(w_run('do_extract_' + sfx, 'h_do_extract', L, nt, QT if L == (2 if nt == 0 else 1) else T, ex_loops(L)))
         RUNS.append(w_run('erase_' + sfx, 'h_erase', L, nt, QT if L == 1 else T, ex_loops(L)))
@@ -294,12 +295,13 @@ for nt in (0, 1, 'tn', 'mt', 'mn'):
     RUNS.append(dict(w_run('get_int_' + sfx, 'h_get_int', 1, nt, QT, {'vhm_try_get_value_int__0': 4}), mode='INT', cls='unbounded',
                      note='retry loop and extension-chain loop cut by invariants RETRY / CHAIN; environment = any writers (rely: type invariant only); %s storage' % MODE_NAME[nt]))
     for L, tiers in ((2, QT), (3, T)):
+        if L == 3 and nt not in (0, 1): continue
         RUNS.append(dict(w_run('get_solo_%s%d' % (sfx, L), 'h_get_seq', L, nt, tiers, {'vhm_try_get_value__0': 1, 'vhm_try_get_value__2': 1, 'vhm_try_get_value__3': 1, 'vhm_try_get_value__5': 1, 'vhm_try_get_value__1': 4, 'vhm_try_get_value__4': L + 1}),
                          mode='SOLO', unwind_obligation='vhm.get.terminates', flags=['--object-bits', '10']))    # (a reader that does loop needs > 2^8 objects before the unwinding assertion is reached)
     RUNS.append(w_run('acc_' + sfx, 'h_acc', 1, nt, QT, {}))
 RUNS.append(dict(w_run('lock_int', 'h_lock_int', 1, 0, QT, {}), mode='INT', cls='unbounded', note='spin loop cut by invariant LOCK; environment: other threads lock/unlock/modify the bucket at will'))
 for L, nt, tiers in ((1, 0, QT), (1, 1, QT), (1, 'tn', T), (1, 'mt', T), (1, 'mn', T),   # (the new modes share the rehash text of T / N)
-                      (2, 0, T), (2, 1, T), (2, 'tn', T), (2, 'mt', T), (2, 'mn', T)):
+                      (2, 0, T), (2, 1, T)):
     RUNS.append(dict(w_run('do_grow_%s%d' % (SFX[nt], L), 'h_do_grow', L, nt, tiers, {}), note='one old bucket (3 slots + chain <= %d) rehashed into two new buckets; allocate_block is a stub; %s storage' % (L, MODE_NAME[nt])))
 RUNS.append(dict(w_run('grow_int', 'h_grow_int', 1, 0, QT, {}), mode='INT', cls='unbounded', note='wait loop cut by invariant WAIT; environment: another thread may hold / release the resize lock and use the bucket once it is released'))
 RUNS.append(w_run('grow_t', 'h_grow', 1, 0, ['quick', 'thorough'], {'vhm_grow_real__0': 1}))
